@@ -1158,9 +1158,28 @@ func (w *Wallet) MintSwap(amount uint64, from, to string) (uint64, error) {
 		return 0, err
 	}
 
+	// the proofs are no longer part of the available proofs: keep them as pending
+	// until the swap went through so that they are not lost if it fails at some
+	// point (they can then be reclaimed, or removed once the mint has spent them)
+	if err := w.db.AddPendingProofs(proofsToSwap); err != nil {
+		return 0, fmt.Errorf("could not save proofs to pending: %v", err)
+	}
+
 	amountSwapped, err := w.swapProofs(proofsToSwap, &fromMint, &toMint)
 	if err != nil {
 		return 0, err
+	}
+
+	Ys := make([]string, len(proofsToSwap))
+	for i, proof := range proofsToSwap {
+		Y, err := crypto.HashToCurve([]byte(proof.Secret))
+		if err != nil {
+			return 0, err
+		}
+		Ys[i] = hex.EncodeToString(Y.SerializeCompressed())
+	}
+	if err := w.db.DeletePendingProofs(Ys); err != nil {
+		return 0, fmt.Errorf("error removing pending proofs: %v", err)
 	}
 
 	return amountSwapped, nil
